@@ -207,6 +207,9 @@ impl Forwarder {
 
             debug!(payloads_sent, payloads_dropped, "Finished sending payloads.");
 
+            #[cfg(metrics_verif)]
+            crate::verif::run_cycle_done(&self.config.remote_addr.to_string(), &telemetry_update);
+
             self.update_telemetry(&telemetry_update);
         }
     }
